@@ -22,6 +22,7 @@ the C++ uses it — both are exercised by the correspondence harness only.
 -/
 import SharkVerif.Model.Archive
 import SharkVerif.Gen.Serial
+import SharkVerif.Gen.SerialCodec
 namespace SharkVerif.C18
 open SharkVerif.Archive
 
@@ -96,6 +97,48 @@ theorem all_classes_obligations (c : ClassInfo) (hc : c ∈ Gen.Serial.classes) 
   obtain ⟨k, _, rfl⟩ := List.mem_map.mp hc
   exact ⟨k.rw, k.cov⟩
 
+theorem class_roundtrip_aux (c : ClassInfo) (hc : c ∈ Gen.Serial.classes) (st st0 : State Tok) (g : String)
+    (hg : g ∈ c.writeFields) :
+    readObj c.readFields (writeObj c.writeFields st) st0 g = st g := by
+  have h := (all_classes_obligations c hc).1
+  simp only [ClassInfo.readWriteAgree, Bool.and_eq_true] at h
+  have heq : c.readFields = c.writeFields := by simpa using h.1
+  rw [heq]
+  exact read_write_id _ st st0 g hg
+
+/-- every class found by the translator satisfies the behaviour-dependency obligation: each member
+mentioned by `eval`/`operator()`/`parameterVector`/`numberOfParameters`/`step`/`inputShape`/`outputShape`
+(and the methods of the class they call — list regenerated from the source on every run) is archived,
+rebuilt by `read`, or allow-listed with a reviewed reason -/
+theorem all_classes_deps_covered (c : ClassInfo) (hc : c ∈ Gen.Serial.classes) : c.depsCovered = true := by
+  unfold Gen.Serial.classes at hc
+  obtain ⟨k, _, rfl⟩ := List.mem_map.mp hc
+  exact k.dep
+
+/-- a behaviour function that reads only the keys in `deps` -/
+def DependsOnly {β : Type} (beh : State Tok → β) (deps : List String) : Prop :=
+  ∀ st st' : State Tok, (∀ g ∈ deps, st g = st' g) → beh st = beh st'
+
+/-- **behaviour preservation per class family**: for every class found by the translator (every model,
+kernel, normaliser, kernel expansion, optimizer, dataset, … — `c.family`), a behaviour function that
+depends only on keys `deps` gives the same result on the restored object as on the original, provided
+the fresh object agrees with the original on the keys in `deps` that `write` does not archive (the
+allow-listed configuration / external objects / members rebuilt by `read`) — nothing is assumed
+about any other member of the fresh object (stale state elsewhere is irrelevant). -/
+theorem family_behaviour_preserved {β : Type} (c : ClassInfo) (hc : c ∈ Gen.Serial.classes)
+    (beh : State Tok → β) (deps : List String) (hdep : DependsOnly beh deps) (st st0 : State Tok)
+    (hfresh : ∀ g ∈ deps, g ∉ c.writeFields → st0 g = st g) :
+    beh (readObj c.readFields (writeObj c.writeFields st) st0) = beh st := by
+  apply hdep
+  intro g hg
+  by_cases hw : g ∈ c.writeFields
+  · exact class_roundtrip_aux c hc st st0 g hw
+  · have h := (all_classes_obligations c hc).1
+    simp only [ClassInfo.readWriteAgree, Bool.and_eq_true] at h
+    have heq : c.readFields = c.writeFields := by simpa using h.1
+    rw [heq, read_other_untouched _ _ _ _ hw]
+    exact hfresh g hg hw
+
 /-- **per-class round trip**: for every `read`/`write` pair and every `serialize`
 template in the repo tree, reading what was written restores every archived expression -/
 theorem class_roundtrip (c : ClassInfo) (hc : c ∈ Gen.Serial.classes) (st st0 : State Tok) (g : String)
@@ -140,5 +183,143 @@ example : (Codec.dataset (V := Nat) Codec.denseBatch).enc ⟨[⟨1, 2, [7, 8]⟩
 example : roundTrip (Codec.dataset (V := Nat) Codec.denseBatch) ⟨[], []⟩ = some ⟨[], []⟩ := by decide
 example : roundTrip (Codec.dataset (V := Nat) Codec.denseBatch) ⟨[⟨1, 1, [5]⟩], [1]⟩ = some ⟨[⟨1, 1, [5]⟩], [1]⟩ := by
   decide
+
+/-! ### histories -/
+
+/-- **reading into a used object / reading twice**: whatever was read (or configured) before, a second
+`read` overwrites every archived field with the second archive -/
+theorem read_overwrites_stale (fields : List String) (st1 st2 st0 : State Tok) (g : String) (hg : g ∈ fields) :
+    readObj fields (writeObj fields st2) (readObj fields (writeObj fields st1) st0) g = st2 g :=
+  read_write_id fields st2 _ g hg
+
+/-- reading the same archive twice is the same as reading it once -/
+theorem read_twice_idem (fields : List String) (st st0 : State Tok) :
+    readObj fields (writeObj fields st) (readObj fields (writeObj fields st) st0)
+      = readObj fields (writeObj fields st) st0 := by
+  funext g
+  by_cases hg : g ∈ fields
+  · rw [read_write_id _ _ _ _ hg, read_write_id _ _ _ _ hg]
+  · rw [read_other_untouched _ _ _ _ hg]
+
+/-- second generation: writing the restored object gives the archive of the original -/
+theorem rewrite_same_archive (fields : List String) (st st0 : State Tok) :
+    writeObj fields (readObj fields (writeObj fields st) st0) = writeObj fields st := by
+  simp only [writeObj]
+  apply List.map_congr_left
+  intro g hg
+  exact read_write_id fields st st0 g hg
+
+/-- `n` steps -/
+def iter {α : Type} (f : α → α) : Nat → α → α
+  | 0, a => a
+  | n + 1, a => iter f n (f a)
+
+theorem iterate_add_apply {α : Type} (f : α → α) (n k : Nat) (a : α) :
+    iter f (n + k) a = iter f n (iter f k a) := by
+  induction k generalizing a with
+  | zero => rfl
+  | succ k ih => exact ih (f a)
+
+/-- **optimizer continuation after a restore at every step index**: `k` steps, write, read into an
+optimizer `st0` that agrees on the members `write` does not archive, `n` more steps — the same state as
+`n + k` uninterrupted steps, for every `k` and `n` and every deterministic `step` -/
+theorem optimizer_continues_every_index (step : State Tok → State Tok) (fields : List String) (st st0 : State Tok)
+    (k n : Nat) (hfresh : ∀ g, g ∉ fields → st0 g = (iter step k st) g) :
+    iter step n (readObj fields (writeObj fields (iter step k st)) st0) = iter step (n + k) st := by
+  rw [behaviour_preserved fields _ st0 hfresh, iterate_add_apply]
+
+example : iter (fun (s : State Nat) => fun g => s g ++ [1]) 2
+    (readObj ["m_x"] (writeObj ["m_x"] (iter (fun (s : State Nat) => fun g => s g ++ [1]) 1 (fun _ => []))) (fun _ => [1])) "m_x"
+    = [1, 1, 1] := by decide
+
+/-! ### token-level archives of the containers (encoders regenerated from the source) -/
+
+section tokens
+open Gen.SerialCodec Codec
+variable {V : Type}
+
+/-- a generated `read` decodes what the generated `write` encoded, followed by anything -/
+theorem Data_token_roundtrip {B : Type} (cb : Codec V B) (d) (rest : List (Archive.Tok V)) :
+    (Data_codec_r cb).dec ((Data_codec cb).enc d ++ rest) = some (d, rest) := by
+  rw [Data_rw]; exact (Data_codec cb).law d rest
+
+theorem LabeledData_token_roundtrip {B L : Type} (cb : Codec V B) (cl : Codec V L) (d) (rest : List (Archive.Tok V)) :
+    (LabeledData_codec_r cb cl).dec ((LabeledData_codec cb cl).enc d ++ rest) = some (d, rest) := by
+  rw [LabeledData_rw]; exact (LabeledData_codec cb cl).law d rest
+
+theorem WeightedData_token_roundtrip {D W : Type} (cd : Codec V D) (cw : Codec V W) (d) (rest : List (Archive.Tok V)) :
+    (BaseWeightedDataset_codec_r cd cw).dec ((BaseWeightedDataset_codec cd cw).enc d ++ rest) = some (d, rest) := by
+  rw [BaseWeightedDataset_rw]; exact (BaseWeightedDataset_codec cd cw).law d rest
+
+/-- datasets of dense elements (`Data<RealVector>`: batches are `remora::matrix`), every number of batches
+(none, empty ones, single elements), every shape: the token stream of `write` followed by any rest decodes
+to the same batches in the same order with the same shape -/
+theorem dense_dataset_tokens (d) (rest : List (Archive.Tok V)) :
+    (Data_codec_r (remoraMat val)).dec ((Data_codec (remoraMat val)).enc d ++ rest) = some (d, rest) :=
+  Data_token_roundtrip _ d rest
+
+/-- datasets of sparse elements (batches are `remora::compressed_matrix`: raw storage arrays) -/
+theorem sparse_dataset_tokens (d) (rest : List (Archive.Tok V)) :
+    (Data_codec_r compressed_matrix_codec).dec ((Data_codec compressed_matrix_codec).enc d ++ rest) = some (d, rest) :=
+  Data_token_roundtrip _ d rest
+
+/-- labelled datasets of sparse elements with class labels, weighted (`WeightedLabeledData`) -/
+theorem weighted_labeled_sparse_tokens (d) (rest : List (Archive.Tok V)) :
+    (BaseWeightedDataset_codec_r (LabeledData_codec compressed_matrix_codec (remoraVec nat)) (remoraVec val)).dec
+      ((BaseWeightedDataset_codec (LabeledData_codec compressed_matrix_codec (remoraVec nat)) (remoraVec val)).enc d ++ rest)
+      = some (d, rest) :=
+  WeightedData_token_roundtrip _ _ d rest
+
+/-- nested standard containers: `std::vector<std::pair<std::size_t, std::string>>`, vectors of vectors -/
+theorem std_wrappers_tokens (l : List (Nat × String)) (ll : List (List V)) (rest : List (Archive.Tok V)) :
+    (pair (stdVector 0 (pair nat str)) (stdVector 0 (stdVector 0 val))).dec
+      ((pair (stdVector 0 (pair nat str)) (stdVector 0 (stdVector 0 val))).enc (l, ll) ++ rest) = some ((l, ll), rest) :=
+  Codec.law _ _ rest
+
+example : (Data_codec (V := Int) (remoraMat val)).enc ([(1, 2, [7, 8])], ([2], 2))
+    = [.nat 1, .nat 1, .nat 1, .nat 2, .nat 2, .nat 0, .val 7, .val 8, .nat 1, .nat 0, .nat 2, .nat 2] := by decide
+/-- empty dataset, dataset with one empty batch -/
+example : (Data_codec (V := Int) (remoraMat val)).enc ([], ([], 1)) = [.nat 0, .nat 1, .nat 0, .nat 0, .nat 1] := by decide
+example : (Data_codec_r (V := Int) (remoraMat val)).dec ((Data_codec (remoraMat val)).enc ([(0, 3, [])], ([3], 3)))
+    = some (([(0, 3, [])], ([3], 3)), []) := by rfl
+
+/-! #### stale targets: `remora::vector` / `remora::matrix` loaded into a used object -/
+
+/-- `vector::serialize` loading into ANY old vector (longer, shorter, empty) restores exactly the saved
+vector — including the saved empty vector, for which no array is archived and `resize(0)` does the work -/
+theorem vecLoad_roundtrip {α : Type} (c : Codec V α) (pad : α) (old v : List α) (rest : List (Archive.Tok V)) :
+    vecLoad c pad old ((remoraVec c).enc v ++ rest) = some (v, rest) := by
+  cases v with
+  | nil =>
+    simp [remoraVec, vecLoad, vecResize]
+  | cons a t =>
+    have hl := vecResize_length pad old (t.length + 1)
+    have hne : (vecResize pad old (t.length + 1)).isEmpty = false := by
+      cases h : vecResize pad old (t.length + 1) with
+      | nil => rw [h] at hl; simp at hl
+      | cons _ _ => rfl
+    have h := decN_encAll c (a :: t) rest
+    simp only [List.length_cons] at h
+    simp only [remoraVec, List.isEmpty_cons, Bool.false_eq_true, ↓reduceIte, List.cons_append, vecLoad, List.length_cons,
+      hne, hl]
+    exact h
+
+/-- hence the load does not depend on the old state: it is the decoder of the codec -/
+theorem vecLoad_stale_independent {α : Type} (c : Codec V α) (pad : α) (old old' v : List α) (rest : List (Archive.Tok V)) :
+    vecLoad c pad old ((remoraVec c).enc v ++ rest) = vecLoad c pad old' ((remoraVec c).enc v ++ rest) := by
+  rw [vecLoad_roundtrip, vecLoad_roundtrip]
+
+theorem matLoad_roundtrip {α : Type} (c : Codec V α) (old m : Nat × Nat × List α) (rest : List (Archive.Tok V)) :
+    matLoad c old ((remoraMat c).enc m ++ rest) = some (m, rest) := by
+  obtain ⟨s1, s2, d⟩ := m
+  have h := (stdVector 0 c).law d rest
+  simp only [remoraMat, pair, nat, List.cons_append, List.nil_append, matLoad]
+  simp only [stdVector, List.cons_append] at h ⊢
+  rw [h]
+
+example : vecLoad (V := Int) val 0 [9, 9, 9] ((remoraVec val).enc []) = some ([], []) := by decide
+example : vecLoad (V := Int) val 0 [9, 9, 9] ((remoraVec val).enc [4]) = some ([4], []) := by decide
+
+end tokens
 
 end SharkVerif.C18
